@@ -192,6 +192,7 @@ class SimTransport(Transport):
         self.loop = loop
         self.sent = []          # (t_us, decoded frame)
         self.trace = []         # ('in'|'out', decoded frame) in global order
+        self._slots = None      # set by instrument(): out-frames are ordered by the moment they were QUEUED
         self.raw = []           # in-memory frames as handed over
         self.q = asyncio.Queue()
         self.closed = 0
@@ -225,7 +226,16 @@ class SimTransport(Transport):
         self.raw.append(frame)
         _dec = fast_parse(fast_serialize(frame))
         self.sent.append((self.loop.now_us(), _dec))
-        self.trace.append(('out', _dec))
+        if self._slots is None:
+            self.trace.append(('out', _dec))
+        else:
+            dq = self._slots.get(frame.stream_id)
+            if dq:
+                dq[0][1].append(_dec)
+                if not getattr(_dec, 'flags_follows', False):
+                    dq.pop(0)
+            else:
+                self.trace.append(['out', [_dec]])
         if self.block_sends:
             self.gate = self.loop.create_future()
             await self.gate
@@ -240,10 +250,35 @@ class SimTransport(Transport):
             return None
         if isinstance(item, Exception):
             raise item
+        if self._slots is not None:
+            self.trace.append(['in', [item]])
 
         async def g():
             yield item
         return g()
+
+    def instrument(self, ep):
+        """order the trace by what the endpoint KNEW: inbound frames when the receiver takes them, outbound frames
+        when they were queued (a frame queued before a reception cannot be unsent).  Observation only."""
+        self._slots = {}
+        orig = ep.send_frame
+
+        def send_frame(frame):
+            slot = ['out', []]
+            self.trace.append(slot)
+            self._slots.setdefault(frame.stream_id, []).append(slot)
+            return orig(frame)
+        ep.send_frame = send_frame
+
+    def ordered_trace(self):
+        out = []
+        for d, frames in self.trace:
+            if isinstance(frames, list):
+                for f in frames:
+                    out.append((d, f))
+            else:
+                out.append((d, frames))
+        return out
 
     def requires_length_header(self):
         return self.length_header
@@ -253,13 +288,15 @@ class SimTransport(Transport):
 
     # harness helpers
     def feed(self, frame):
-        self.trace.append(('in', frame))
+        if self._slots is None:
+            self.trace.append(('in', frame))
         self.q.put_nowait(frame)
 
     def feed_wire(self, frame):
         f = wire(frame)
         if f is not None:
-            self.trace.append(('in', f))
+            if self._slots is None:
+                self.trace.append(('in', f))
             self.q.put_nowait(f)
 
     def eof(self):
